@@ -114,3 +114,14 @@ func zzMustParse(ev *Evaluator, src, what string) *parser.Program {
 	}
 	return prog
 }
+
+// zzSymRunes returns n symbolic code points (Unicode scalar values); a
+// string built from them is a rune-vector string under the engine.
+func zzSymRunes(n int) []rune {
+	rs := make([]rune, n)
+	for k := 0; k < n; k++ {
+		rs[k] = zzRune("r")
+	}
+	return rs
+}
+
